@@ -33,30 +33,14 @@ func VerifCheckRequestContext(c *Cluster, addr string, ctx *kvrpcpb.Context) *er
 	return s.CheckRequestContext(ctx)
 }
 
-// VerifSplitRaw is SplitRaw with TiKV's epoch rule: the split-off region gets
-// the parent's (incremented) version instead of starting again at 1. The
-// client's region cache treats a region whose version is lower than that of a
-// cached intersecting region as stale, which relies on this rule.
+// VerifSplitRaw / VerifMerge used to re-implement SplitRaw / Merge with TiKV's region version rule,
+// because the mock's own rule made fresh regions look stale to the client's region cache. That was a
+// defect of the mock (fixed in the repository: "mocktikv split/merge follow TiKV's region version
+// rule"); the helpers now only forward to the real methods, so the mock's rule itself is under test.
 func (c *Cluster) VerifSplitRaw(regionID, newRegionID uint64, rawKey []byte, peerIDs []uint64, leaderPeerID uint64) {
-	c.Lock()
-	defer c.Unlock()
-	parent := c.regions[regionID]
-	child := parent.split(newRegionID, rawKey, peerIDs, leaderPeerID)
-	child.Meta.RegionEpoch.Version = parent.Meta.RegionEpoch.Version
-	c.regions[newRegionID] = child
+	c.SplitRaw(regionID, newRegionID, rawKey, peerIDs, leaderPeerID)
 }
 
-// VerifMerge is Merge with TiKV's epoch rule: the merged region's version is
-// max(version1, version2)+1 (the mock only increments the first region's).
 func (c *Cluster) VerifMerge(regionID1, regionID2 uint64) {
-	c.Lock()
-	defer c.Unlock()
-	r1, r2 := c.regions[regionID1], c.regions[regionID2]
-	v := r1.Meta.RegionEpoch.Version
-	if v2 := r2.Meta.RegionEpoch.Version; v2 > v {
-		v = v2
-	}
-	r1.merge(r2.Meta.GetEndKey())
-	r1.Meta.RegionEpoch.Version = v + 1
-	delete(c.regions, regionID2)
+	c.Merge(regionID1, regionID2)
 }
